@@ -553,3 +553,82 @@ func loadDisposeOrder(c *Ctx, rule string) {
 	w := q.Escapes(q.callTo(p.Method(eniPkg, "IP", "Dispose")), q.callTo(p.Method(eniPkg, "IP", "Allocate")), nil, nil)
 	c.Check(w == nil, rule, "load: no binding is re-applied after the idle-address disposal", p.Pos(ld.Decl), ld.Key(), "never-before: Dispose() before Allocate(podID) in load (an address would be judged idle before its stored owner is restored)", "path: "+p.describePath(w))
 }
+
+// sliceText concatenates the source of every statement of fn that defines obj or passes it to a
+// call (so a callee may fill it), and — to the given depth — the same for every local variable
+// mentioned in those statements: a backward slice by names, used for provenance questions of the
+// form "is this value derived from X".
+func sliceText(fn *FuncInfo, obj types.Object, depth int) string {
+	info := fn.Info()
+	seen := map[types.Object]bool{}
+	var sb strings.Builder
+	var rec func(o types.Object, d int)
+	rec = func(o types.Object, d int) {
+		if o == nil || seen[o] || d < 0 {
+			return
+		}
+		seen[o] = true
+		var next []types.Object
+		mention := func(n ast.Node) {
+			ast.Inspect(n, func(m ast.Node) bool {
+				if id, ok := m.(*ast.Ident); ok {
+					if v, ok := info.Uses[id].(*types.Var); ok && !v.IsField() && v.Parent() != nil && v.Pkg() != nil && v.Parent() != v.Pkg().Scope() {
+						next = append(next, v)
+					}
+				}
+				return true
+			})
+		}
+		for _, d := range varDefs(fn, o) {
+			if d.rhs != nil {
+				sb.WriteString(exprString(d.rhs) + ";")
+				mention(d.rhs)
+			} else if as, ok := d.node.(*ast.AssignStmt); ok {
+				for _, r := range as.Rhs {
+					sb.WriteString(exprString(r) + ";")
+					mention(r)
+				}
+			}
+		}
+		// an out-parameter: the variable holds a fresh object that a call fills in
+		fresh := false
+		for _, d := range varDefs(fn, o) {
+			if d.rhs != nil {
+				r := ast.Unparen(d.rhs)
+				if u, ok := r.(*ast.UnaryExpr); ok && u.Op == token.AND {
+					r = ast.Unparen(u.X)
+				}
+				if _, ok := r.(*ast.CompositeLit); ok {
+					fresh = true
+				}
+				if _, ok := isBuiltinCall(info, r, "new"); ok {
+					fresh = true
+				}
+			}
+		}
+		if fresh {
+			ast.Inspect(fn.Decl.Body, func(n ast.Node) bool {
+				call, ok := n.(*ast.CallExpr)
+				if !ok {
+					return true
+				}
+				for _, a := range call.Args {
+					x := ast.Unparen(a)
+					if u, ok := x.(*ast.UnaryExpr); ok && u.Op == token.AND {
+						x = ast.Unparen(u.X)
+					}
+					if id, ok := x.(*ast.Ident); ok && info.Uses[id] == o {
+						sb.WriteString(exprString(call) + ";")
+						mention(call)
+					}
+				}
+				return true
+			})
+		}
+		for _, n := range next {
+			rec(n, d-1)
+		}
+	}
+	rec(obj, depth)
+	return sb.String()
+}
